@@ -13,7 +13,9 @@ use proptest::prelude::*;
 pub enum LK { Extract, Trace, Pack }
 
 #[derive(Clone, Debug, serde::Serialize, serde::Deserialize)]
-pub struct LweCase { pub ps: ParamSet, pub kind: LK, pub idx: u16, pub alt_form: bool, pub l: u8, pub count: u16, pub terms: Vec<u16>, pub coeffs: Vec<(u8, u64)>, pub seeded_keys: bool }
+pub struct LweCase { pub ps: ParamSet, pub kind: LK, pub idx: u16, pub alt_form: bool, pub l: u8, pub count: u16, pub terms: Vec<u16>, pub coeffs: Vec<(u8, u64)>, pub seeded_keys: bool,
+    /// 1: the input ciphertext is first moved one level down (BGV: correction factor != 1)
+    #[serde(default)] pub down: u8 }
 
 fn fixed_ps(scheme: Scheme, logn: u32, entropy: u64) -> ParamSet {
     let moduli = ntt_primes_distinct(logn, &[55, 50, 55, 58], &[0, 1, 2, 3]);
@@ -28,7 +30,7 @@ fn lwe_case(tier: Tier) -> BoxedStrategy<LweCase> {
         .prop_flat_map(|(ps, kind, idx, alt_form, l, count, seeded_keys)| {
             let n = 1usize << ps.logn;
             (Just(ps), Just(kind), Just(idx), Just(alt_form), Just(l), Just(count), proptest::collection::vec(any::<u16>(), n), proptest::collection::vec((any::<u8>(), any::<u64>()), n), Just(seeded_keys))
-        }).prop_map(|(ps, kind, idx, alt_form, l, count, terms, coeffs, seeded_keys)| LweCase { ps, kind, idx, alt_form, l, count, terms, coeffs, seeded_keys }).boxed()
+        }).prop_map(|(ps, kind, idx, alt_form, l, count, terms, coeffs, seeded_keys)| LweCase { down: (coeffs[0].1 >> 40) as u8 & 1, ps, kind, idx, alt_form, l, count, terms, coeffs, seeded_keys }).boxed()
 }
 
 fn exhaustive(tier: Tier) -> Vec<LweCase> {
@@ -39,9 +41,9 @@ fn exhaustive(tier: Tier) -> Vec<LweCase> {
             let ps = fixed_ps(scheme, logn, 1000 + logn as u64);
             let coeffs: Vec<(u8, u64)> = (0..n).map(|i| (8, (i as u64 + 1).wrapping_mul(0x2545F4914F6CDD1D))).collect();
             let terms: Vec<u16> = (0..n).map(|i| (((n - 1 - i) * 65536 + 100) / n) as u16).collect();
-            for i in 0..n { out.push(LweCase { ps: ps.clone(), kind: LK::Extract, idx: ((i * 65536 + 100) / n) as u16, alt_form: i % 2 == 1, l: 0, count: 0, terms: terms.clone(), coeffs: coeffs.clone(), seeded_keys: false }); }
-            for l in 0..=logn { out.push(LweCase { ps: ps.clone(), kind: LK::Trace, idx: 0, alt_form: false, l: l as u8, count: 0, terms: terms.clone(), coeffs: coeffs.clone(), seeded_keys: l % 2 == 0 }); }
-            if logn <= 5 { for k in 1..=n { out.push(LweCase { ps: ps.clone(), kind: LK::Pack, idx: 0, alt_form: false, l: 0, count: (((k - 1) * 65536 + 100) / n) as u16, terms: terms.clone(), coeffs: coeffs.clone(), seeded_keys: false }); } }
+            for i in 0..n { out.push(LweCase { ps: ps.clone(), kind: LK::Extract, idx: ((i * 65536 + 100) / n) as u16, alt_form: i % 2 == 1, l: 0, count: 0, terms: terms.clone(), coeffs: coeffs.clone(), seeded_keys: false, down: (i % 3 == 2) as u8 }); }
+            for l in 0..=logn { out.push(LweCase { ps: ps.clone(), kind: LK::Trace, idx: 0, alt_form: false, l: l as u8, count: 0, terms: terms.clone(), coeffs: coeffs.clone(), seeded_keys: l % 2 == 0, down: (l % 2) as u8 }); }
+            if logn <= 5 { for k in 1..=n { out.push(LweCase { ps: ps.clone(), kind: LK::Pack, idx: 0, alt_form: false, l: 0, count: (((k - 1) * 65536 + 100) / n) as u16, terms: terms.clone(), coeffs: coeffs.clone(), seeded_keys: false, down: (k % 3 == 0) as u8 }); } }
         }
     }
     out
@@ -66,19 +68,26 @@ fn oracle(c: &LweCase) -> Verdict {
         }
         _ => (BatchEncoder::new(w.context.clone()).encode_polynomial_new(&vals), vec![]),
     };
-    let ct = match catch(|| w.encryptor.encrypt_new(&plain)) { Ok(c) => c, Err(p) => return fail(format!("encrypt panicked: {p}")) };
-    let lq = log2_big(&w.levels[0].q);
-    let klev = w.levels[0].moduli.len();
-    let fresh = nm.fresh(true, true);
+    let mut ct = match catch(|| w.encryptor.encrypt_new(&plain)) { Ok(c) => c, Err(p) => return fail(format!("encrypt panicked: {p}")) };
+    // optionally one level down first: lower-level inputs, and in BGV a correction factor different from 1
+    let lvl = if c.down == 1 && w.levels.len() > 1 { 1 } else { 0 };
+    let mut fresh0 = nm.fresh(true, true);
+    if lvl == 1 {
+        ct = match catch(|| w.evaluator.mod_switch_to_next_new(&ct)) { Ok(c) => c, Err(p) => return fail(format!("mod_switch_to_next panicked: {p}")) };
+        if scheme != Scheme::CKKS { fresh0 = nm.modswitch(fresh0, 2, *w.levels[0].moduli.last().unwrap()); }
+    }
+    let lq = log2_big(&w.levels[lvl].q);
+    let klev = w.levels[lvl].moduli.len();
+    let fresh = fresh0;
     let ks = nm.keyswitch(f64::NEG_INFINITY, klev);
     // decrypt a ciphertext (given in any representation) to a coefficient vector: residues mod t (BFV/BGV) or centered integers (CKKS)
     let default_ntt = scheme != Scheme::BFV;
     let decrypt = |x: &Ciphertext| -> Result<(Vec<u64>, Vec<BigI>), String> {
         let y = if x.is_ntt_form() != default_ntt { catch(|| if default_ntt { ev.transform_to_ntt_new(x) } else { ev.transform_from_ntt_new(x) })? } else { x.clone() };
         let d = catch(|| w.decryptor.decrypt_new(&y))?;
-        Ok(match scheme { Scheme::CKKS => (vec![], rns_ntt_to_centered(&w, 0, d.data())), _ => (pad(d.data(), n), vec![]) })
+        Ok(match scheme { Scheme::CKKS => (vec![], rns_ntt_to_centered(&w, lvl, d.data())), _ => (pad(d.data(), n), vec![]) })
     };
-    let mut info = Info::new(false).label(format!("{:?}", scheme)).label(format!("{:?}", c.kind));
+    let mut info = Info::new(false).label(format!("{:?}", scheme)).label(format!("{:?}", c.kind)).label_if(lvl == 1, "input one level down");
     match c.kind {
         LK::Extract => {
             let i = pick_idx(c.idx, n);
